@@ -67,6 +67,16 @@ func (c *Conv) AppWidth(s string) int {
 	return c.TermWidth(s)
 }
 
+func asciiOnly(s string) string {
+	b := []byte(s)
+	for i := range b {
+		if b[i] < 0x20 || b[i] > 0x7e || b[i] == '"' || b[i] == '\\' {
+			b[i] = '?'
+		}
+	}
+	return string(b)
+}
+
 // Feed converts a chunk of output bytes to events.
 func (c *Conv) Feed(p []byte) []trace.Ev {
 	var evs []trace.Ev
@@ -126,6 +136,10 @@ func (c *Conv) conv(t lexer.Token) []trace.Ev {
 			return []trace.Ev{{"ev": "curs", "n": t.P(0, 0)}}
 		case t.B == 'J' && t.Priv == "" && t.P(0, 0) == 2:
 			return []trace.Ev{{"ev": "ed2"}}
+		case t.B == 'u' && t.Priv == ">" && t.Inter == "":
+			return []trace.Ev{{"ev": "kpush", "n": t.P(0, 0)}}
+		case t.B == 'u' && t.Priv == "<" && t.Inter == "":
+			return []trace.Ev{{"ev": "kpop", "n": t.P(0, 1)}}
 		}
 		return c.other(fmt.Sprintf("csi:%s%s%s%c", t.Priv, t.Raw, t.Inter, t.B))
 	case lexer.OSC:
@@ -146,7 +160,9 @@ func (c *Conv) conv(t lexer.Token) []trace.Ev {
 				return []trace.Ev{{"ev": "xprint", "g": c.G.ID(parts[2]), "w": w}}
 			}
 		case strings.HasPrefix(t.S, "22;"):
-			return []trace.Ev{{"ev": "nop", "what": "pointer:" + t.S[3:]}}
+			return []trace.Ev{{"ev": "pointer", "s": asciiOnly(t.S[3:])}}
+		case strings.HasPrefix(t.S, "176;") && t.S != "176;?":
+			return []trace.Ev{{"ev": "appid", "id": c.L.ID("appid:" + t.S[4:])}}
 		}
 		return c.other("osc:" + strings.SplitN(t.S, ";", 2)[0])
 	case lexer.APC:
@@ -155,6 +171,9 @@ func (c *Conv) conv(t lexer.Token) []trace.Ev {
 		}
 		return c.other("apc")
 	case lexer.ESC:
+		if t.Inter == "" && (t.B == '=' || t.B == '>') {
+			return []trace.Ev{{"ev": "keypad", "v": t.B == '='}}
+		}
 		return c.other(fmt.Sprintf("esc:%s%c", t.Inter, t.B))
 	case lexer.DCS:
 		return c.other("dcs")
